@@ -296,6 +296,10 @@ func c12Run(w *W) {
 			for _, s := range subj3 {
 				for _, m := range c12Modes {
 					c12One(w, []string{p1, p2}, m, s)
+					// and, in the same process, the ONE pattern "p1|p2" ('|' is an ordinary character): nothing a call
+					// leaves behind (a cache keyed by the joined text, say) may leak into another call
+					c12One(w, []string{p1 + "|" + p2}, m, s)
+					c12One(w, []string{p1 + "|" + p2}, m, s+"|"+s)
 				}
 			}
 		}
